@@ -54,6 +54,32 @@ def run(ctx):
         P3["driver"] = {"cmd": "delta", "env": {"VERIF_BIG": "1"}}
         P3["n_random"] = (3, 40)
         pipeline.standard_check(ctx, P3)
+    # fourth leg: felix/cachingmap.CachingMap (a DeltaTracker bound to a real map) - spec CMap
+    if not ctx.replay and not ctx.violations:
+        pipeline.standard_check(ctx, PC)
+
+
+def cmap_nontrivial(evs):
+    # exercises a failed dataplane write, an ENOENT delete, a failed load or an out-of-band edit
+    return any((e["ev"] == "dp_update" and not e["ok"]) or (e["ev"] == "dp_delete" and e["res"] != "ok")
+               or (e["ev"] == "dp_load" and not e["ok"]) or e["ev"] == "ext" for e in evs)
+
+
+PC = {
+    "specdir": "delta",
+    "design": [{"module": "CMap", "cfg": "MC_CMap.cfg", "workers": 4}],
+    "gen": {"module": "Gen_CMap", "cfg": "Gen_CMap_cover.cfg", "workers": 1, "max": 1200, "thorough_max": 17000},
+    "driver": {"cmd": "cmap"},
+    "n_random": (200, 4000),
+    "trace": {"module": "T_CMap", "cfg": "T_CMap.cfg"},
+    "chunk": 250000,
+    "signature": signature,
+    "nontrivial": cmap_nontrivial,
+    "rule": P["rule"] + "; CachingMap leg: one behaviour per transition of the (desired, cache, real, loaded) graph with "
+            "fault plans (failing Update/Delete per key, failing Load, out-of-band edits), each run on the plain and "
+            "the batched dataplane-map API, plus seeded random sequences",
+    "assumptions": P["assumptions"],
+}
 
 
 def selftest(ctx):
